@@ -38,7 +38,7 @@ NUMERIC_OPS = ["add", "sub", "mul"]
 CMP = ["lt", "le", "gt", "ge", "eq", "ne"]
 
 
-class Var:
+class Var:  # unique_index: index labels of the rows are defined (False after merge/groupby/concat/...)
     """Static knowledge about a program variable."""
 
     def __init__(self, kind, cols=None, name=None, base=None, ordered=True, rows="t0", boolean=False, numeric=None, unique_index=True):
@@ -69,6 +69,10 @@ class ProgGen:
 
     def add(self, op, ins, args, var):
         out = self.fresh()
+        if op != "set_index" and var.kind != "scalar" and var.rows != "cols":
+            for v in ins:
+                if v in self.vars and not self.vars[v].unique_index:
+                    var.unique_index = False
         self.steps.append({"out": out, "op": op, "in": ins, "args": args})
         self.vars[out] = var
         if var.base is None:
@@ -140,6 +144,8 @@ class ProgGen:
         ops = ["proj", "filter", "binlit", "assign", "fillna", "rename", "drop", "abs", "filter"]
         if self.profile in ("l2", "l3"):
             ops += ["repartition", "shuffle", "sort_values", "astype"]
+        if self.profile == "l3":
+            ops += ["cumsum", "shift", "merge", "groupby_sum", "concat_self", "drop_duplicates", "set_index", "reset_index"]
         op = r.choice(ops)
         if op == "proj":
             k = r.randint(1, len(info.cols))
@@ -199,6 +205,41 @@ class ProgGen:
         if op == "sort_values":
             c = r.choice(info.cols)
             return self.add("sort_values", [fv], {"by": c}, Var("frame", cols=list(info.cols), base=None, ordered=False, rows=info.rows, numeric=list(info.numeric)))
+        if op in ("cumsum", "shift"):
+            if not info.ordered or set(info.cols) - set(info.numeric):
+                return None
+            return self.add(op, [fv], {"periods": r.choice([1, 2])} if op == "shift" else {}, Var("frame", cols=list(info.cols), base=info.base, ordered=True, rows=info.rows, numeric=list(info.numeric)))
+        if op == "merge":
+            if "t1" not in self.vars or "a" not in info.cols:
+                return None
+            how = r.choice(["inner", "left", "outer", "right"])
+            o = self.vars["t1"]
+            cols = []
+            for c in info.cols:
+                cols.append(c if (c == "a" or c not in o.cols) else c + "_x")
+            for c in o.cols:
+                if c != "a":
+                    cols.append(c if c not in info.cols else c + "_y")
+            return self.add("merge", [fv, "t1"], {"on": "a", "how": how}, Var("frame", cols=cols, base=None, ordered=False, rows="m", numeric=list(cols), unique_index=False))
+        if op == "groupby_sum":
+            if len(info.cols) < 2 or set(info.cols) - set(info.numeric):
+                return None
+            k = r.choice(info.cols)
+            rest = [c for c in info.cols if c != k]
+            return self.add("groupby_sum", [fv], {"by": k, "split_out": r.choice([1, 1, 2])}, Var("frame", cols=[k] + rest, base=None, ordered=False, rows="g", numeric=[k] + rest, unique_index=False))
+        if op == "concat_self":
+            return self.add("concat_self", [fv], {}, Var("frame", cols=list(info.cols), base=None, ordered=False, rows="c", numeric=list(info.numeric), unique_index=False))
+        if op == "drop_duplicates":
+            c = r.choice(info.cols)
+            return self.add("drop_duplicates", [fv], {"subset": [c]}, Var("frame", cols=[c], base=None, ordered=False, rows="d", numeric=[x for x in [c] if x in info.numeric], unique_index=False))
+        if op == "set_index":
+            if not info.numeric or len(info.cols) < 2:
+                return None
+            c = r.choice(info.numeric)
+            cols = [x for x in info.cols if x != c]
+            return self.add("set_index", [fv], {"col": c}, Var("frame", cols=cols, base=None, ordered=False, rows=info.rows, numeric=[x for x in info.numeric if x != c], unique_index=True))
+        if op == "reset_index":
+            return None
         if op == "astype":
             c = r.choice(info.numeric) if info.numeric else None
             if c is None:
@@ -240,7 +281,8 @@ class ProgGen:
             if self.step_frame() is not None:
                 made += 1
         res = self.final()
-        return {"steps": self.steps, "result": res, "ordered": self.vars[res].ordered, "kind": self.vars[res].kind}
+        return {"steps": self.steps, "result": res, "ordered": self.vars[res].ordered, "kind": self.vars[res].kind,
+                "labels": self.vars[res].unique_index}
 
 
 # ----------------------------------------------------------------------------- interpretation
@@ -290,6 +332,25 @@ def apply_step(step, env, is_dask):
         return x[0].shuffle(a["on"], npartitions=a["npartitions"], shuffle_method=a["method"]) if is_dask else x[0]
     if op == "sort_values":
         return x[0].sort_values(a["by"])
+    if op == "cumsum":
+        return x[0].cumsum()
+    if op == "shift":
+        return x[0].shift(a["periods"])
+    if op == "merge":
+        return x[0].merge(x[1], on=a["on"], how=a["how"])
+    if op == "groupby_sum":
+        if is_dask:
+            return x[0].groupby(a["by"]).sum(split_out=a["split_out"]).reset_index()
+        return x[0].groupby(a["by"]).sum().reset_index()
+    if op == "concat_self":
+        if is_dask:
+            import dask_expr as dx
+            return dx.concat([x[0], x[0]])
+        return pd.concat([x[0], x[0]])
+    if op == "drop_duplicates":
+        return x[0][a["subset"]].drop_duplicates()
+    if op == "set_index":
+        return x[0].set_index(a["col"]) if is_dask else x[0].set_index(a["col"]).sort_index(kind="stable")
     raise KeyError(op)
 
 
